@@ -61,7 +61,7 @@ pub fn sigma_wide() -> Vec<String> {
     let mut v: Vec<String> = (0u8..128).map(|b| (b as char).to_string()).collect();
     for c in [
         '\u{80}', '\u{85}', '\u{a0}', '\u{e9}', '\u{7ff}', '\u{800}', '\u{1680}', '\u{2000}', '\u{2028}', '\u{2029}', '\u{202f}', '\u{205f}', '\u{2060}', '\u{3000}',
-        '\u{20ac}', '\u{d7ff}', '\u{e000}', '\u{feff}', '\u{fffd}', '\u{ffff}', '\u{ff11}', '\u{10000}', '\u{1f600}', '\u{10ffff}',
+        '\u{20ac}', '\u{d7ff}', '\u{e000}', '\u{f000}', '\u{feff}', '\u{fffd}', '\u{ffff}', '\u{ff11}', '\u{10000}', '\u{1f600}', '\u{50000}', '\u{10ffff}',
     ] {
         v.push(c.to_string());
     }
